@@ -184,7 +184,7 @@ func cmdExec(args []string) {
 			er.Cross = map[string]int{}
 			for _, bin := range strings.Split(*cross, ",") {
 				for _, sc := range r.CrossCheck {
-					ans, _ := RunOneShot(bin, sc, 60)
+					ans, _ := RunOneShot(bin, sc, 20)
 					if strings.HasPrefix(ans, "error") {
 						ans = "error"
 					}
